@@ -1,12 +1,11 @@
 """C09 - a transaction is included at most once per chain, only in its validity window.  DESIGN section 5 (C09)."""
+import os
+
 import chainindexcommon as cc
 from verifkit import Infra
 
 
-def run(ctx):
-    if ctx.replay:
-        return cc.replay(ctx)
-    q = ctx.quick
+def design_level(ctx, q):
     # 1. design level: ChainIndex.tla with blocks entering only through AcceptBlock (admission decided through the two
     #    code paths of HasTransaction, RECENT = 3, one filter-prefix collision, a dependency, short windows):
     #    NoDupOnChain, WindowOk, DepsOk, LookupAgrees on every chain of every tree
@@ -33,20 +32,29 @@ def run(ctx):
     ctx.tlc_must_hold(cc.SUB, "MC_ChainIndex", cfg="MC_ChainIndex_lookupstable%s.cfg" % ("_quick" if q else ""), workers=2,
                       timeout=900 if q else 3000, label="LookupStable: a lookup never changes a later lookup's answer")
 
+
+
+def run(ctx):
+    if ctx.replay:
+        return cc.replay(ctx)
+    q = ctx.quick
+    if os.environ.get("VERIF_PART") != "demo":
+        design_level(ctx, q)
+
     # 2. binding demonstrations: lookups (repository level) and verdicts (consensus level)
-    runs, stats, how = cc.record(ctx, "chainindex", ["-mode", "treeclean", "-blocks", "12"], "demo-repo", 1, seed_offset=977)
-    if cc.validate_runs(ctx, runs, stats, "demo-repo", how) != [0]:
-        return
-    cc.binding_demo(ctx, runs[0], "c09-repo", [("has-flipped", cc.mut_lookup_has),
-                                                ("lookup-from-wrong-branch", cc.mut_lookup_branch)])
-    runs, stats, how = cc.record(ctx, "txwindow", ["-mode", "short"], "demo-cons", 1, seed_offset=977)
-    if cc.validate_runs(ctx, runs, stats, "demo-cons", how) != [0]:
-        return
-    cc.binding_demo(ctx, runs[0], "c09-cons", [
+    pool = cc.DemoPool(ctx, "chainindex", ["-mode", "treeclean", "-blocks", "12"], "demo-repo")
+    cc.binding_demo(ctx, pool, "c09-repo", [("has-flipped", cc.mut_lookup_has),
+                                             ("lookup-from-wrong-branch", cc.mut_lookup_branch)])
+    pool = cc.DemoPool(ctx, "txwindow", ["-mode", "short"], "demo-cons", n=2)
+    cc.binding_demo(ctx, pool, "c09-cons", [
         ("refusal-reported-as-acceptance", cc.mut_verdict(False)), ("acceptance-reported-as-refusal", cc.mut_verdict(True)),
         ("adopt-refusal-flipped", cc.mut_adopt), ("adopt-class-later-for-bad", cc.mut_adopt_class),
         ("pool-class-flipped", cc.mut_pool), ("add-deleted", cc.mut_delete("Add"))])
-    cc.invariant_demo(ctx, runs[0], "c09-cons")
+    cc.invariant_demo(ctx, pool, "c09-cons")
+    cc.stalled(ctx)
+    if os.environ.get("VERIF_PART") == "demo":       # development aid: only the demonstrations
+        ctx.cov.update(evaluations=len(pool.runs), distinct_nontrivial=0, rule="demonstrations only")
+        return
 
     # 3a. repository level: 104..130-block chains with an equally long side branch; every tx looked up from every block
     #     as head, i.e. through the recent-ancestor scan (head - ref < 100) and through filter + index (>= 100)
